@@ -1,6 +1,6 @@
 """Which units decide which property (DESIGN.md sections 1, 5)."""
 
-VERUS_UNITS = ['U-FMT', 'U-REACH', 'U-COMPACTAS', 'U-SANITY', 'U-RESOLVE', 'U-CONTAINS', 'U-CALLS', 'U-DESCR', 'U-DERIVES', 'U-MIXED', 'U-BUILDERS', 'U-SUBST', 'U-VALIDATE', 'U-FLATTEN']
+VERUS_UNITS = ['U-FMT', 'U-REACH', 'U-COMPACTAS', 'U-SANITY', 'U-RESOLVE', 'U-CONTAINS', 'U-CALLS', 'U-DESCR', 'U-DERIVES', 'U-MIXED', 'U-BUILDERS', 'U-SUBST', 'U-VALIDATE', 'U-FLATTEN', 'U-PATHS']
 
 PROPS = {
     'C15': {
@@ -36,7 +36,7 @@ PROPS = {
     },
     'C10': {
         'level': 'proof',
-        'verus': ['U-SANITY', 'U-RESOLVE', 'U-CALLS', 'U-MIXED'],
+        'verus': ['U-SANITY', 'U-RESOLVE', 'U-CALLS', 'U-MIXED', 'U-PATHS'],
         'kani': ['sanity_pass_upto4'],
         'trusted_base': ['Verus 0.2026.09.13, Z3, rustc 1.98.1'],
         'assumptions': [
@@ -44,8 +44,8 @@ PROPS = {
         ],
         'not_covered': [
             'everything generate_types_mod and ensure_unique_type_paths do AFTER their sanity_pass(..)? line (abstracted by rule R8)',
-            'everything create_composite_ir_kind does after the mixed-fields check (abstracted by rule R8); compact / decoded-bits path presence (resolve_type_path_recurse): reach syn/proc_macro2',
-            'propagation of TypeNotFound through resolve_type_path_recurse',
+            'everything create_composite_ir_kind does after the mixed-fields check (abstracted by rule R8)',
+            'resolve_type_path_recurse: everything before its `match` on the type definition (parent-parameter shortcut, resolve_type and the propagation of TypeNotFound, Cow, own parameters: abstracted by rule R8\'), the Tuple arm\'s map/collect (R8\'\'), termination of the recursion; for a Compact type without a configured path the contract says "an error" (CompactPathNone unless resolving the inner type fails first), for a BitSequence exactly DecodedBitsPathNone',
             '"never panics on well-formed registries": whole-program statement over token-producing functions',
         ],
     },
